@@ -160,6 +160,8 @@ def tuckerAlsRun (ops : NumOps α) (nvecs : Nat → Dense α → Nat → Nat →
     let rank := parseRank rank N
     -- `if len(rank) != N: raise` (11afd42)
     if rank.length != N then .error .reject
+    -- `if np.any(rank < 1) or np.any(rank > shape): raise` (35fe719; negative entries: `tuckerAlsRunI`)
+    else if rank.any (fun r => decide (r < 1)) || ranksExceed rank X.shape then .error .reject
     else
     let order := modeOrder dimorder N
     if !isPermOf order N then .error .reject
@@ -176,6 +178,16 @@ def tuckerAlsRun (ops : NumOps α) (nvecs : Nat → Dense α → Nat → Nat →
             match mkTtensor r.core r.factors with
             | .error e => .error e
             | .ok T => .ok (⟨T, Uinit, Gen.itersReported r.iteration, r.normresidual, r.fit⟩, recs)
+
+/-- The rank argument as Python integers: a negative entry fails the test `rank < 1` (35fe719). -/
+def tuckerAlsRunI (ops : NumOps α) (nvecs : Nat → Dense α → Nat → Nat → Mat α)
+    (uniform : Nat → Nat → Nat → Mat α) (X : Dense α) (rank : List Int) (stoptol : α) (maxiters : Int)
+    (dimorder : Option (List Nat)) (init : Init α) : Except Reject (TaOut α × List (IterRec α)) :=
+  if maxiters < 0 then .error .reject
+  else if rank.any (fun x => decide (x < 0)) then
+    -- after `repeat`, a too long / too short vector is rejected by the length test, any other by `rank < 1`
+    .error .reject
+  else tuckerAlsRun ops nvecs uniform X (rank.map Int.toNat) stoptol maxiters dimorder init
 
 def tuckerAls (ops : NumOps α) (nvecs : Nat → Dense α → Nat → Nat → Mat α)
     (uniform : Nat → Nat → Nat → Mat α) (X : Dense α) (rank : List Nat) (stoptol : α) (maxiters : Int)
